@@ -452,16 +452,90 @@ def run_labelorder(chk, F, rid="R-LABELORDER"):
                 any(x.get("k") == "member" and x.get("name") == "fragments" for x in walk(n["then"])):
             order.append(_strip(n["c"])["name"])
     loc = F.fn("UTAP::XMLReader::location")
-    in_loop = False
-    for n in walk(loc["body"]):
-        if n.get("k") == "while" and any(c.get("name") == "invariant" for c in calls(n.get("body"))):
-            in_loop = True
-    # in a loop over all labels the parse order is the document order: not fixed
-    fixed = not in_loop
+    # where the labels are parsed: calls of the parsing method (invariant) in location(), each with its enclosing loop
+    inside = {}
+    for lp in walk(loc["body"]):
+        if lp.get("k") in ("while", "for", "do", "rangefor"):
+            for z in walk(lp):
+                inside.setdefault(id(z), lp)
+    pcs = [c for c in calls(loc["body"]) if c.get("name") == "invariant" and (c.get("cls") or "").endswith("XMLReader")]
+    if not pcs:
+        raise AnalysisBroken("R-LABELORDER: XMLReader::location no longer parses its labels through invariant()")
+    fixed, how = True, "straight-line code"
+    for c in pcs:
+        lp = inside.get(id(c))
+        if lp is None:
+            continue
+        # a loop: the order is the order of what it iterates over.  Reading and parsing in the same loop is document
+        # order; a loop over a container is fixed if the container was sorted by a rank that puts the invariant first
+        fixed, how = False, "a loop that reads and parses label after label: document order"
+        if lp.get("k") == "rangefor" and isinstance(lp.get("range"), dict):
+            cont = short(_strip(lp["range"]))
+            for srt in calls(loc["body"]):
+                if srt.get("name") in ("sort", "stable_sort") and any(cont in short(a_) for a_ in srt.get("args", [])[:2]):
+                    lam = next((x for a_ in srt.get("args", []) for x in walk(a_) if x.get("k") == "lambda"), None)
+                    rk = _rank_order(F, lam) if lam is not None else None
+                    if rk is True:
+                        fixed, how = True, "a loop over `%s`, sorted with the invariant label ranked first" % cont
+                    elif rk is False:
+                        how = "a loop over `%s`, sorted with the rate label ranked first" % cont
+                    else:
+                        how = "a loop over `%s` sorted by a comparator that could not be read" % cont
     chk.ob(rid, "location|parse-order", fixed,
-           "XMLReader::location parses the labels of a location in document order, but proc_location pops `%s` first: a "
+           "XMLReader::location parses the labels of a location in %s, but proc_location pops `%s` first: a "
            "location that lists its exponentialrate label before its invariant label gets them exchanged (invariant "
-           "`3`, rate `x <= 5`)" % (order[0] if order else "?"), "%s:%s" % (loc["file"], loc["line"]))
+           "`3`, rate `x <= 5`)" % (how, order[0] if order else "?"), "%s:%s" % (loc["file"], loc["line"]),
+           sample="labels are parsed in %s" % how)
+
+
+def _rank_order(F, lam):
+    """For a comparator `[](a, b) { return rank(a.kind) < rank(b.kind); }`: True if rank("invariant") <
+    rank("exponentialrate"), False if the other way round, None if the comparator has another shape.  rank is a file-local
+    function whose body is `return kind == "<literal>" ? m : n;` or an if-chain of such returns."""
+    rets = [r for r in walk(lam.get("body") or {}) if r.get("k") == "return" and r.get("e") is not None]
+    if len(rets) != 1:
+        return None
+    e = _strip(rets[0]["e"])
+    if not (e.get("k") == "bin" and e.get("op") in ("<", ">")):
+        return None
+    l_, r_ = _strip(e["lhs"]), _strip(e["rhs"])
+    if not (l_.get("k") == "call" and r_.get("k") == "call" and l_.get("fn") and l_.get("fn") == r_.get("fn")):
+        return None
+    pn = [p_.get("name") for p_ in lam.get("params", [])]
+
+    def param_of(c):
+        for y in walk(c.get("args", [])):
+            if y.get("k") == "ref" and y.get("name") in pn:
+                return pn.index(y["name"])
+        return None
+    pl, pr = param_of(l_), param_of(r_)
+    if pl is None or pr is None or pl == pr:
+        return None
+
+    def rank(kind):
+        for g in F.fns(l_["fn"]):
+            if g.get("body") is None:
+                continue
+            for r in walk(g["body"]):
+                if r.get("k") != "return" or r.get("e") is None:
+                    continue
+                v = _strip(r["e"])
+                if v.get("k") == "int":
+                    return v["v"]               # the first unconditional literal return (after if-chains: default)
+                if v.get("k") == "cond":
+                    lits = [x.get("v") for x in walk(v["c"]) if x.get("k") == "str"]
+                    eq = "==" in short(v["c"])
+                    a_, b_ = _strip(v["a"]), _strip(v["b"])
+                    if len(lits) == 1 and a_.get("k") == "int" and b_.get("k") == "int" and eq:
+                        return a_["v"] if kind == lits[0] else b_["v"]
+            return None
+        return None
+    ri, rr = rank("invariant"), rank("exponentialrate")
+    if ri is None or rr is None or ri == rr:
+        return None
+    # comparator(a, b) true means a goes first
+    first_smaller = (e["op"] == "<") == (pl < pr)
+    return (ri < rr) == first_smaller
 
 
 # --------------------------------------------------------------------------------------------- R-NODROP
@@ -954,9 +1028,14 @@ def _reader_outcomes(F, fn, depth=0):
                 return
             elif k == "if":
                 rest = stmts[i + 1:]
+                c0 = _strip(s["c"])
                 if is_begin(s["c"]):
                     run([s["then"]] + rest, 0, env, True, budget)
                     run(([s["else"]] if s.get("else") is not None else []) + rest, 0, env, consumed, budget)
+                elif isinstance(c0, dict) and c0.get("k") == "un" and c0.get("op") == "!" and is_begin(c0["e"]):
+                    # `if (!begin(TAG)) return false;`: the rest of the method runs inside the element
+                    run([s["then"]] + rest, 0, env, consumed, budget)
+                    run(([s["else"]] if s.get("else") is not None else []) + rest, 0, env, True, budget)
                 else:
                     run([s["then"]] + rest, 0, env, consumed, budget)
                     run(([s["else"]] if s.get("else") is not None else []) + rest, 0, env, consumed, budget)
@@ -1012,6 +1091,20 @@ def run_loopend(chk, F, rid="R-LOOPEND"):
         if c.get("k") == "un" and c.get("op") == "!":
             v = evalc(c["e"], env)
             return None if v is None else not v
+        if c.get("k") == "bin" and c.get("op") == "&&":
+            a, b = evalc(c["lhs"], env), evalc(c["rhs"], env)
+            if a is False or b is False:
+                return False
+            if a is True and b is True:
+                return True
+            # the reader has moved into an element (its conjunct is true) and something else decides whether the
+            # loop goes on: it can stop after a consumed element
+            return "maybe-stops" if (a is True or b is True) else None
+        if c.get("k") == "bin" and c.get("op") == "||":
+            a, b = evalc(c["lhs"], env), evalc(c["rhs"], env)
+            if a is True or b is True:
+                return True
+            return False if (a is False and b is False) else None
         if c.get("k") == "bin" and c.get("op") in ("==", "!=", "<", "<=", ">", ">="):
             def val(x):
                 x = _strip(x)
@@ -1071,7 +1164,10 @@ def run_loopend(chk, F, rid="R-LOOPEND"):
                     goes_on = evalc(cond, env)
                     if goes_on is None:
                         continue
-                    if consumed and not goes_on:
+                    if consumed and goes_on == "maybe-stops":
+                        bad.append("after %s() has moved into an element the loop condition `%s` still depends on something "
+                                   "else and can end the loop" % (drv, short(cond)[:60]))
+                    elif consumed and not goes_on:
                         bad.append("%s() can return %s after it has moved into an element, and the loop `%s` then stops" %
                                    (drv, value, short(cond)[:40]))
                 chk.ob(rid, "%s|%s" % (fn["name"], drv), not bad,
